@@ -191,8 +191,8 @@ func (i Int8) ExponentiateInt8(other Int8) Int8 {
 		return 1
 	}
 	result := i
-	var j Int8
-	for j = 2; j <= other; j++ {
+	// count down: an upward counter of the same type wraps around when `other` is the type's maximum
+	for j := other; j >= 2; j-- {
 		result *= i
 	}
 	return result
